@@ -92,3 +92,14 @@ def c03(res: CheckResult) -> None:
               list(F.fam_inv(res.tier, rng)), ic, require_outcomes=["ret", "Violation"])
     call_unit(res, "subclass constructors calling the base constructor; members added by the subclass",
               list(F.fam_inv_sub(res.tier, rng)), ic, require_outcomes=["ret", "Violation"])
+
+
+@check("C11")
+def c11(res: CheckResult) -> None:
+    ic = C.load_icontract()
+    rng = random.Random(res.seed)
+    res.assumptions = COMMON_ASSUMPTIONS
+    call_unit(res, "a fault of every kind at every crossing of a checked call, then probes",
+              list(F.fam_fault(res.tier, rng)), ic, require_outcomes=["ret", "Violation", "KI", "Exception"])
+    call_unit(res, "cancellation / close at every suspension point of an async call, then a probe",
+              list(F.fam_cancel(res.tier, rng)), ic, require_outcomes=["ret", "Cancelled"])
